@@ -919,7 +919,7 @@ func TestVerifC26F(t *testing.T) {
 		mk("", "i", &pql.Call{Name: "Row", Args: map[string]interface{}{"v": &pql.Condition{Op: pql.BETWEEN, Value: []interface{}{int64(-5), int64(10)}}}})
 	})
 
-	n := r.N(24000, 3000000)
+	n := r.N(24000, 960000)
 	r.Cases("forward", n, func(i int, id string, rng *vk.Rand) {
 		g := &c26fGen{rng: rng, r: r}
 		if rng.Intn(100) >= 60 {
